@@ -9,7 +9,7 @@ from .. import b2check, core, gen
 
 
 def jobs(rng, thorough):
-    n = 6000 if thorough else 500
+    n = 40000 if thorough else 500
     out = []
     for _ in range(n):
         out.append((gen.conn_lifecycle(rng), rng.randrange(10 ** 9), rng.choice([0, 0, 3, 6])))
